@@ -92,6 +92,10 @@ def stepLine (d : DS) (args : List String) : DS × String :=
                   allowed := parseAllowed l, grantExpiresIn := 43200, authnExpiresIn := 3600,
                   -- harness configuration: client_1 back-channel, client_2 front-channel, client_3 no logout URI
                   logoutUri := fun c => c == lit "client_1" || c == lit "client_2" }, st := {} }, "ok")
+  | ["ccscope", al] =>
+    match optList al with
+    | some a => (d, encList (configuredScope a))
+    | none => (d, "bad-op")
   | _ =>
     match parseOp args with
     | none => (d, "bad-op")
